@@ -11,6 +11,7 @@ from harness.gen import dags
 from harness.runner import Outcome, exc_kind, fiddle_frame
 import harness.vuni as vuni
 from harness.vuni import boxes  # registers the Box traverser  pylint: disable=unused-import
+from harness.vuni import things
 
 RULE = (
     'Generated: DAG recipes of fdl.Config nodes (functions and classes), lists, tuples, dicts, '
@@ -35,10 +36,12 @@ FLOORS = {'alias': 0.3, 'copyof': 0.15, 'box': 0.15}
 
 @st.composite
 def strategy_(draw, tier):
+  if draw(st.sampled_from(range(25))) == 0:
+    return {'late_registration': True, 'probe_first': draw(st.booleans()), 'n_items': draw(st.integers(1, 3))}
   mode = draw(st.sampled_from(['dag', 'dag', 'dag', 'boxes', 'chain'] if tier == 'thorough'
                                else ['dag', 'dag', 'dag', 'boxes', 'boxes', 'chain']))
   if mode == 'dag':
-    recipe = draw(dags.dag(max_nodes=14, kinds=['B', 'B', 'B', 'list', 'list', 'tuple', 'dict', 'nt', 'box', 'TV'],
+    recipe = draw(dags.dag(max_nodes=14, kinds=['B', 'B', 'B', 'list', 'list', 'tuple', 'dict', 'nt', 'box', 'TV', 'ltuple'],
                            fns=['things:f2', 'things:h1', 'things:Base', 'things:LeafCls', 'things:Other', 'things:kwf']))
     for nd in recipe['nodes']:
       if nd['k'] == 'B' and nd['fn'].get('name') == 'things:kwf' and draw(st.booleans()):
@@ -118,8 +121,54 @@ def walk_pairs(cfg, built, limit=30000):
   yield from rec(cfg, built, ())
 
 
+_LATE = [0]
+
+
+def check_late_registration(case, out):
+  """History: a build sees instances of a type while it is unregistered (opaque), the type is
+  registered as a daglish node type, then a configuration holding Buildables inside such an
+  instance is built: they are invoked once each and sharing with the outside is kept."""
+  from fiddle import daglish
+  out.cls('late_registration')
+  out.nontrivial = True
+  _LATE[0] += 1
+  cls = type(f'LateBuildNode{_LATE[0]}', (), {})
+
+  def mk(items):
+    o = cls()
+    o.items = list(items)
+    return o
+
+  if case['probe_first']:
+    fdl.build(fdl.Config(things.f2, x=mk([1, 2])))
+  daglish.register_node_traverser(
+      cls, flatten_fn=lambda o: (tuple(o.items), None), unflatten_fn=lambda vals, _: mk(vals),
+      path_elements_fn=lambda o: tuple(daglish.Index(i) for i in range(len(o.items))))
+  shared = fdl.Config(things.f2, x='shared')
+  inner = [fdl.Config(things.Base, x=f'in{i}') for i in range(case['n_items'])]
+  node = mk([shared] + inner)
+  root = fdl.Config(things.h1, a=node, b=shared, c=[node])
+  vuni.reset_log()
+  built = fdl.build(root)
+  feat = 'probed' if case['probe_first'] else 'fresh'
+  n_calls = len(vuni.LOG)
+  if n_calls != 2 + case['n_items']:
+    out.add('invocation-count', 'mismatch', '', 'late-registration:' + feat,
+            f'{n_calls} invocations for {2 + case["n_items"]} distinct Config instances')
+    return out
+  ba = built.bound['a']
+  if type(ba) is not cls or ba is node or any(isinstance(x, fdl.Buildable) for x in ba.items):
+    out.add('built-graph-differs-from-reference', 'mismatch', '', 'late-registration:' + feat, repr(ba.__dict__)[:300])
+    return out
+  if ba.items[0] is not built.bound['b'] or built.bound['c'][0] is not ba:
+    out.add('same-config-object-different-built-objects', 'identity', '', 'late-registration:' + feat, '')
+  return out
+
+
 def check(case):
   out = Outcome()
+  if case.get('late_registration'):
+    return check_late_registration(case, out)
   root, objs = dags.build(case)
   stats = dags.recipe_stats(case)
   if stats['aliases']:
@@ -178,7 +227,7 @@ def check(case):
     return out
   # (b),(c): parallel walk
   try:
-    c2b, b2c = {}, {}
+    c2b, b2c, t2b = {}, {}, {}
     order = {id(r): i for i, r in enumerate(log)}
     pins = []
     for path, c, b in walk_pairs(root, built):
@@ -199,12 +248,19 @@ def check(case):
               out.add('dependency-built-after-dependent', 'order', '', feature, str(path))
               return out
       if C.is_internable(c):
+        if type(c) is tuple and c:
+          # one tuple object referenced several times is built into one tuple object (the converse,
+          # distinct-but-equal constant tuples staying distinct, is not judged: Python may intern them)
+          pins.append((c, b))
+          t2b.setdefault(id(c), set()).add(id(b))
         continue
       pins.append((c, b))
       c2b.setdefault(id(c), set()).add(id(b))
       b2c.setdefault(id(b), set()).add(id(c))
     if any(len(s) > 1 for s in c2b.values()):
       out.add('same-config-object-different-built-objects', 'identity', '', feature, '')
+    if any(len(s) > 1 for s in t2b.values()):
+      out.add('same-constant-tuple-different-built-objects', 'identity', '', feature, '')
     if any(len(s) > 1 for s in b2c.values()):
       out.add('distinct-config-objects-same-built-object', 'identity', '', feature, '')
   except TooBig:
